@@ -31,11 +31,23 @@ func cCases(rec *vcommon.Rec) []*caseDesc {
 	}
 	// observation only (DESIGN.md C04, interpretation): a hand-written client that ignores the StartTLS offer of the real server
 	out = append(out, &caseDesc{Monitor: "C", Seed: rec.Seed(), Carrier: "tcp", Cert: "good", Peer: "scripted-client-ignoring-starttls-offer"})
-	if rec.Thorough() {
-		// an https endpoint that was given no certificate: it binds the port and never serves it
-		out = append(out, &caseDesc{Monitor: "C", Seed: rec.Seed(), Carrier: "wss", Cert: "none", Peer: "scripted-plaintext-client"})
+	// the same endpoints with a scheme that asks for TLS and NO key pair (the fixture leaves only the CA in the
+	// configuration): each kind either refuses to start or binds and never completes anything. Where it
+	// starts, every plaintext peer is left waiting on the unchanged tree (one stall window each, see slowC).
+	for _, ep := range []string{"tcp+tls", "unix+tls", "wss", "stdio+tls"} {
+		out = append(out, &caseDesc{Monitor: "C", Seed: rec.Seed(), Carrier: ep, Cert: "none", Peer: "scripted-plaintext-client"})
+		if ep == "wss" || rec.Thorough() {
+			for _, req := range []bool{false, true} {
+				out = append(out, &caseDesc{Monitor: "C", Seed: rec.Seed(), Carrier: ep, Cert: "none", Peer: "real-client-plain-scheme", Require: req})
+			}
+		}
 	}
 	return out
+}
+
+// slowC: cases of monitor C whose endpoint starts without a key pair; held means "the peer waits forever".
+func slowC(c *caseDesc) bool {
+	return c.Monitor == "C" && c.Cert == "none" && (c.Carrier == "wss" || c.Carrier == "stdio+tls")
 }
 
 func hostOf(url string) string { return url[strings.Index(url, "://")+3:] }
@@ -43,7 +55,7 @@ func hostOf(url string) string { return url[strings.Index(url, "://")+3:] }
 func runC(rec *vcommon.Rec, c *caseDesc) {
 	rec.Mark(c)
 	key := c.key()
-	sig := "C:" + c.Carrier + ":" + c.Peer
+	sig := "C:" + c.Carrier + yn(c.Cert == "none", "(no-key-pair)", "") + ":" + c.Peer
 	rng := vcommon.NewRand(c.Seed, "c04marker/"+key)
 	mb := make([]byte, markerLen)
 	rng.Read(mb)
@@ -59,6 +71,14 @@ func runC(rec *vcommon.Rec, c *caseDesc) {
 	}
 	p, err := e2e.Start(e2e.Options{Carrier: c.Carrier, NoClient: true, Tag: "c", NoServerCert: c.Cert == "none"})
 	if err != nil {
+		if c.Cert == "none" && !strings.Contains(err.Error(), "address already in use") && !strings.Contains(err.Error(), "bind:") {
+			// an endpoint configured for TLS that has no key pair refuses to start: no session of any kind
+			rec.Case(key, true)
+			rec.Stat("C:cases", 1)
+			rec.Seen("C:cell(endpoint,peer,require)", fmt.Sprintf("%s|cert=%s|%s|require=%v", c.Carrier, c.Cert, c.Peer, c.Require))
+			rec.Seen("C:outcome", fmt.Sprintf("%s|cert=none -> tls-endpoint-without-key-pair-refuses-to-start (%s)", c.Carrier, e2e.Clip(err.Error(), 120)))
+			return
+		}
 		rec.Inconclusive("C: endpoint could not be started: "+e2e.Clip(err.Error(), 200), c)
 		return
 	}
@@ -70,6 +90,7 @@ func runC(rec *vcommon.Rec, c *caseDesc) {
 
 	switch c.Peer {
 	case "scripted-plaintext-client":
+		refused := false
 		announce := "X-SOCKETACE / HTTP/1.1\r\nAccepts-Protocol-Version: " + version.ProtocolVersion + "\r\nUser-Agent: socketace/scripted\r\n\r\n"
 		upgrade := "GET / HTTP/1.1\r\nUser-Agent: socketace/scripted\r\nUpgrade: socketace/" + version.ProtocolVersion + "\r\nConnection: upgrade\r\n\r\n"
 		var rd io.Reader
@@ -78,6 +99,11 @@ func runC(rec *vcommon.Rec, c *caseDesc) {
 		switch c.Carrier {
 		case "tcp+tls", "wss":
 			conn, err := net.Dial("tcp", host)
+			if err != nil && c.Cert == "none" && strings.Contains(err.Error(), "connection refused") {
+				// an endpoint without a key pair that started may have given up its port: nothing is served
+				refused = true
+				break
+			}
 			if err != nil {
 				rec.Inconclusive("C: cannot dial the endpoint: "+err.Error(), c)
 				return
@@ -94,23 +120,64 @@ func runC(rec *vcommon.Rec, c *caseDesc) {
 			sio := p.Up.(*upstream.InputOutput)
 			rd, wr, closer = sio.Input, sio.Output, sio.Output
 		}
-		var msg []byte
+		// a websocket endpoint is first asked for the websocket upgrade; what follows waits for the answer
+		// to that request (the upgrader refuses a client that sends data before the upgrade is answered) and
+		// travels in binary frames with an all-zero masking key, so that it stays readable on the wire
+		var first, msg []byte
+		frame := func(b []byte) []byte {
+			if c.Carrier != "wss" {
+				return b
+			}
+			var out []byte
+			for len(b) > 0 {
+				n := len(b)
+				if n > 16000 {
+					n = 16000
+				}
+				out = append(out, 0x82, 0x80|126, byte(n>>8), byte(n), 0, 0, 0, 0)
+				out = append(out, b[:n]...)
+				b = b[n:]
+			}
+			return out
+		}
 		if c.Carrier == "wss" {
-			// what a plaintext websocket client says first
-			msg = []byte("GET /ws/all HTTP/1.1\r\nHost: " + host + "\r\nUpgrade: websocket\r\nConnection: Upgrade\r\n" +
+			first = []byte("GET /ws/all HTTP/1.1\r\nHost: " + host + "\r\nUpgrade: websocket\r\nConnection: Upgrade\r\n" +
 				"Sec-WebSocket-Key: dGhlIHNhbXBsZSBub25jZQ==\r\nSec-WebSocket-Version: 13\r\n\r\n")
 		}
-		msg = append(msg, announce...)
-		msg = append(msg, upgrade...)
-		msg = append(msg, pay...)
-		go func() { writeAll(wr, msg) }()
+		msg = append(msg, frame([]byte(announce))...)
+		msg = append(msg, frame([]byte(upgrade))...)
+		msg = append(msg, frame(pay)...)
+		if refused {
+			left = "connection-refused"
+			break
+		}
+		headSeen := make(chan struct{})
+		go func() {
+			if len(first) > 0 {
+				writeAll(wr, first)
+				<-headSeen
+			}
+			writeAll(wr, msg)
+		}()
 		var resp bytes.Buffer
 		done := e2e.Go(func() {
+			defer func() {
+				select {
+				case <-headSeen:
+				default:
+					close(headSeen)
+				}
+			}()
 			buf := make([]byte, 4096)
+			head := false
 			for {
 				n, err := rd.Read(buf)
 				e2e.Bump(n)
 				resp.Write(buf[:n])
+				if !head && bytes.Contains(resp.Bytes(), []byte("\r\n\r\n")) {
+					head = true
+					close(headSeen)
+				}
 				if err != nil || resp.Len() > 1<<16 {
 					return
 				}
